@@ -358,8 +358,10 @@ func MethodSrc(d *ty.Decl) string {
 			// hash order such keys with <, never with this method; only the compare plugin would call it.
 			src += fmt.Sprintf("func (this %[1]s) Compare(that %[1]s) int { return 0 }\n\n", n)
 		case "Ei":
-			// the parameter is an interface: the generator passes the pointer, as for a pointer parameter
-			src += fmt.Sprintf("func (this *%[1]s) Equal(other interface{}) bool {\n\tthat, _ := other.(*%[1]s)\n\tif this == nil || that == nil {\n\t\treturn this == nil && that == nil\n\t}\n\treturn this.A == that.A\n}\n\n", n)
+			// the parameter is an interface: the generator passes the pointer, as for a pointer parameter. The interface is a
+			// NAMED, non-empty one that only the pointer implements (the convention of crypto: Equal(x crypto.PublicKey) bool)
+			src += fmt.Sprintf("type %[1]sKeyer interface{ KeyOf%[1]s() int }\n\nfunc (this *%[1]s) KeyOf%[1]s() int { return this.A }\n\n", n)
+			src += fmt.Sprintf("func (this *%[1]s) Equal(other %[1]sKeyer) bool {\n\tthat, _ := other.(*%[1]s)\n\tif this == nil || that == nil {\n\t\treturn this == nil && that == nil\n\t}\n\treturn this.A == that.A\n}\n\n", n)
 		case "Ci":
 			src += fmt.Sprintf("func (this *%[1]s) Compare(other interface{}) int {\n\tthat, _ := other.(*%[1]s)\n\tif this == nil {\n\t\tif that == nil {\n\t\t\treturn 0\n\t\t}\n\t\treturn -1\n\t}\n\tif that == nil {\n\t\treturn 1\n\t}\n\tif this.A < that.A {\n\t\treturn -1\n\t}\n\tif this.A > that.A {\n\t\treturn 1\n\t}\n\treturn 0\n}\n\n", n)
 		case "Dp":
